@@ -103,6 +103,12 @@ var c07Exists = []c07exists{
 	// the predicate navigates back from the nested element: `<-` is the outer row, `<-<-` the document
 	{"q IN (SELECT b FROM `<-<-u`)", func(in, out map[string]any) bool { return c07InU(in["q"]) }},
 	{"q >= 0 AND a IN (SELECT b FROM `<-<-u`)", func(in, out map[string]any) bool { return in["q"].(float64) >= 0 && c07InU(out["a"]) }},
+	// outer columns reached by navigating back from the nested element
+	{"q > `<-.a`", func(in, out map[string]any) bool { return in["q"].(float64) > out["a"].(float64) }},
+	{"w IS NOT NULL AND w >= 10 AND `<-.g` = 'x'", func(in, out map[string]any) bool {
+		w, _ := in["w"].(float64)
+		return in["w"] != nil && w >= 10 && out["g"] == "x"
+	}},
 	// outer columns reached through a selector with further steps (index, nested key)
 	{"q >= `caps[0]`", func(in, out map[string]any) bool { return in["q"].(float64) >= out["caps"].([]any)[0].(float64) }},
 	{"q > `caps[1]` AND `meta.cap` > 1", func(in, out map[string]any) bool {
@@ -183,6 +189,15 @@ func (p *c07) Init(tier string) {
 		},
 		func() map[string]any {
 			return map[string]any{"t": []any{row(0, 1, "x", 1), row(1, 1, "x", 1)}, "u": u(1, 2)}
+		},
+		func() map[string]any {
+			// rows whose nested array is missing or NULL, after a row that has one
+			full := row(0, 1, "x", 1, 4)
+			missing := row(1, 2, "y")
+			delete(missing, "items")
+			null := row(2, 1, "x")
+			null["items"] = nil
+			return map[string]any{"t": []any{full, missing, null, row(3, 4, "y", 2), row(4, 0, "x")}, "u": u(1, 4)}
 		},
 		func() map[string]any {
 			// nested arrays whose elements do not all have the same keys
@@ -522,7 +537,8 @@ func (p *c07) runExists(r *core.CaseResult, ei, di int, mk func() map[string]any
 	want := []any{}
 	for _, row := range rows {
 		rm := row.(map[string]any)
-		for _, it := range rm["items"].([]any) {
+		items, _ := rm["items"].([]any)
+		for _, it := range items {
 			c07CurDoc = mk()
 			if e.ref(it.(map[string]any), rm) {
 				want = append(want, map[string]any{"id": rm["id"]})
@@ -543,7 +559,7 @@ func (p *c07) runExists(r *core.CaseResult, ei, di int, mk func() map[string]any
 
 func (p *c07) Meta() core.Meta {
 	return core.Meta{
-		Rule:        "pipelines: 14 inner queries (filter, projection, aggregate, order, limit, distinct, star, empty result, nested column kept, CASE, EXISTS) x 12 outer queries (star, filter, arithmetic, group-by, order, aggregate, limit, distinct, IN list, IN subquery on the enclosing document, BETWEEN, window) in the forms WITH c AS (I) O[c] and FROM (I) AS d; 2- and 3-stage CTE chains; a CTE referenced twice (self-join, UNION ALL); a CTE read through a path selector; each composed query vs the outer query run over the inner result materialised as plain input. Row-scoped: 8 select-list subqueries (two of them read the enclosing document but are correlated with the outer row) vs the subquery run standalone on each row (with <- bound to the enclosing document), 5 IN-subqueries vs membership in the standalone result, 13 EXISTS predicates over inner and outer columns (incl. predicates that navigate back from the nested element to the outer row and the document, outer columns reached through selectors with an index or a nested key, and IS NULL on keys that some elements of the nested array lack) vs a direct existential. 6 documents (one with sparse nested elements) (thorough: also all tables of <= 3 rows over 3 archetypes). non-trivial = the composed query returns rows",
+		Rule:        "pipelines: 14 inner queries (filter, projection, aggregate, order, limit, distinct, star, empty result, nested column kept, CASE, EXISTS) x 12 outer queries (star, filter, arithmetic, group-by, order, aggregate, limit, distinct, IN list, IN subquery on the enclosing document, BETWEEN, window) in the forms WITH c AS (I) O[c] and FROM (I) AS d; 2- and 3-stage CTE chains; a CTE referenced twice (self-join, UNION ALL); a CTE read through a path selector; each composed query vs the outer query run over the inner result materialised as plain input. Row-scoped: 8 select-list subqueries (two of them read the enclosing document but are correlated with the outer row) vs the subquery run standalone on each row (with <- bound to the enclosing document), 5 IN-subqueries vs membership in the standalone result, 15 EXISTS predicates over inner and outer columns (incl. predicates that navigate back from the nested element to the outer row and the document, outer columns reached through selectors with an index or a nested key, and IS NULL on keys that some elements of the nested array lack) vs a direct existential. 7 documents (one with sparse nested elements, one with rows whose nested array is missing or NULL) (thorough: also all tables of <= 3 rows over 3 archetypes). non-trivial = the composed query returns rows",
 		Assumptions: []string{"inner and outer columns of EXISTS have distinct names (the property fixes no rule for clashes)", "composed and staged results are compared as sequences (multisets for the self-join)"},
 		Bounds:      map[string]any{"inner": len(c07Inner), "outer": len(c07Outer), "documents": len(p.docs)},
 		Exhaustive:  true,
